@@ -575,6 +575,16 @@ def program_set(tier, seed, want_calls=True):
                     br = lambda pa_: (("cfg", "acc1", pa_), ("cfg", "acc2", q))
                     add((("if", 0, br(pa), br(1 - pa)), ("cfg", "acc2", q), ("cfg", "acc2", q2)))
                     add((("cfg", "acc2", q2), ("if", 1, br(pa), br(pa)), ("cfg", "acc2", q), ("cfg", "acc2", q2), ("cfg", "acc1", pa)))
+                    add((("cfg", "acc1", pa), ("cfg", "acc2", q2), ("if", 0, br(1 - pa), br(pa)), ("cfg", "acc2", q), ("cfg", "acc2", q2)))
+                    add((("cfg", "acc2", q2), ("cfg", "acc1", pa), ("if", 0, (("cfg", "acc2", q), ("cfg", "acc1", 1 - pa)), (("cfg", "acc2", q), ("cfg", "acc1", pa))), ("cfg", "acc2", q), ("cfg", "acc2", q2)))
+    # (the same with the roles swapped: acc1's values are plain arguments, so its repeated job is elided completely)
+    for qa in range(2):
+        for p_ in range(3):
+            for p2_ in range(3):
+                if p_ != p2_:
+                    br = lambda qa_: (("cfg", "acc2", qa_), ("cfg", "acc1", p_))
+                    add((("cfg", "acc2", qa), ("cfg", "acc1", p2_), ("if", 0, br(1 - qa), br(qa)), ("cfg", "acc1", p_), ("cfg", "acc1", p2_)))
+                    add((("cfg", "acc2", qa), ("cfg", "acc1", p2_), ("for", "args", (("if", 1, br(qa), br(1 - qa)), ("cfg", "acc1", p_), ("cfg", "acc1", p2_)))))
     # region ops the state tracing has no special case for (scf.while): what happens inside has to be forgotten behind it
     for bk in ("args", "k13", "k42"):
         for p0 in range(3):
